@@ -80,6 +80,8 @@ struct Hooks
     std::function<int(int drv)> shutdown; // status
     // called at the entry of every mock call (yield point etc.)
     std::function<void(const char* call, int inst)> enter;
+    // called when a mock call is about to return
+    std::function<void(const char* call, int inst)> leave;
 };
 
 void
@@ -115,6 +117,7 @@ inst_of_storage(const struct Storage* s);
 // every device instance saw a legal call word, else a description.
 //   require_close: every opened instance must be closed by the end
 std::string
-check_protocol(bool require_close, std::string* oracle_suffix);
+check_protocol(bool require_close, std::string* oracle_suffix,
+               const char* ignore_suffix = nullptr);
 
 } // namespace mock
